@@ -459,10 +459,13 @@ def run_c10(chk, tier, seed):
     ft = flatten(SMALL)
     cands = cands_for(SMALL, rich=False)
     q, e = c10_units(th)
-    q = q + [U(["SENS"], query=True, h=H(items=tuple(str(1000 + i) for i in range(260))))]      # more than 256 data elements in one unit
     defs = [f"Q == {set_of(q)}", f"E == {set_of(e)}"]
-    k = 5 if th else 3
+    k = 4 if th else 3
     run_projection(chk, "C10", "framing", ft, cands, defs, "Q \\cup E", "Q \\cup E", k, ENDINGS, [-1])
+    # more than 256 data elements in one unit (own small projection: the texts are long)
+    big = U(["SENS"], query=True, h=H(items=tuple(str(1000 + i) for i in range(260))))
+    defs2 = [f"Q == {set_of([big] + q[:3])}", f"E == {set_of(e[:1])}"]
+    run_projection(chk, "C10", "framing-many", ft, cands, defs2, "Q \\cup E", "Q \\cup E", 3 if th else 2, ENDINGS, [-1])
     chk.cov["exhaustive"] = True
     chk.cov["rule"] = (f"every message of <= {k} units over {len(q)} query units (1-3 data of several types incl. ';' and ',' inside strings/blocks, with/without response header) and {len(e)} non-query units "
                        f"x 7 message endings (end, NL, ws, ws NL, ';', ';NL', '; '); byte-exact comparison of the response buffer; non-trivial = multi-unit")
